@@ -69,6 +69,28 @@ def run(tier, rep):
                 pairs = rnd.sample(pairs, min(len(pairs), 25))
             for a, b in pairs:
                 add(pieces, 1, [a, b - a, L - b], zero, "cut2")
+    # chunks whose size needs 3 / 4 hex digits; one cut at every position of every size line and terminator
+    for sizes in ([4096], [255, 4097], [65535], [256, 16, 4095]) if not quick else ([4096, 17], [255, 4097]):
+        pieces = [bytes(rnd.randrange(256) for _ in range(n)) for n in sizes]
+        for zero in ((True, False) if not quick else (True,)):
+            wire, _, _ = sock_rec.chunked_body(rnd, pieces, 1, zero=zero, upper=False)
+            L = len(wire)
+            pos, crit = 0, set()
+            for pc_ in pieces:
+                hl = len(f"{len(pc_):x}") + 2
+                for c in range(pos, pos + hl + 2):
+                    crit.add(c)
+                end = pos + hl + len(pc_) + 2
+                for c in range(end - 3, end + 1):
+                    crit.add(c)
+                pos = end
+            for c in sorted(x for x in crit if 0 < x < L):
+                wire2 = None
+                tid = len(tr.traces) + 1
+                segl = [c, L - c]
+                wire_b, datas, dec = sock_rec.chunked_body(rnd, pieces, 1, zero=zero, upper=False)
+                calls = drain_calls(len(dec), rnd) + [("read", 1)]
+                tr.add(wire_b, segl, calls, 1, 70000, decoded=dec, kind="hdrcut", cuts=2)
     # larger bodies, all encodings, random partitions
     for i in range(30 if quick else 400):
         pieces = [bytes(rnd.choice([65, 13, 10, 0xD3, 48, rnd.randrange(256)]) for _ in range(rnd.choice([1, 2, 9, 10, 15, 16, 17, 255, 256, rnd.randint(1, 3000)])))
